@@ -18,20 +18,21 @@ enum Op {
     BuildAPrime,
     BuildBad,
     ScanShared,
+    ScanShared2,
     PeekShared,
 }
 
 fn modes_a() -> Vec<ScannerMode> {
     vec![
-        ScannerMode::new("INITIAL", vec![Pattern::new("a".into(), 0).with_lookahead(Lookahead::new(true, "b".into())), Pattern::new("b".into(), 1), Pattern::new("a+".into(), 2)], vec![(1, 1)]),
-        ScannerMode::new("SECOND", vec![Pattern::new("b+".into(), 0), Pattern::new("a".into(), 1)], vec![(1, 0)]),
+        ScannerMode::new("INITIAL", vec![Pattern::new("a".into(), 0).with_lookahead(Lookahead::new(true, "b".into())), Pattern::new("b".into(), 1), Pattern::new("a+".into(), 2), Pattern::new("\\p{Uppercase}+".into(), 3), Pattern::new("\\PL".into(), 4)], vec![(1, 1)]),
+        ScannerMode::new("SECOND", vec![Pattern::new("b+".into(), 0), Pattern::new("a".into(), 1), Pattern::new("\\pL".into(), 5), Pattern::new("[^\\pL]".into(), 6)], vec![(1, 0)]),
     ]
 }
 
 fn modes_a_prime() -> Vec<ScannerMode> {
     // differs from A only in the polarity of the lookahead
     let mut m = modes_a();
-    m[0] = ScannerMode::new("INITIAL", vec![Pattern::new("a".into(), 0).with_lookahead(Lookahead::new(false, "b".into())), Pattern::new("b".into(), 1), Pattern::new("a+".into(), 2)], vec![(1, 1)]);
+    m[0] = ScannerMode::new("INITIAL", vec![Pattern::new("a".into(), 0).with_lookahead(Lookahead::new(false, "b".into())), Pattern::new("b".into(), 1), Pattern::new("a+".into(), 2), Pattern::new("\\p{Uppercase}+".into(), 3), Pattern::new("\\PL".into(), 4)], vec![(1, 1)]);
     m
 }
 
@@ -39,12 +40,17 @@ fn modes_bad() -> Vec<ScannerMode> {
     vec![ScannerMode::new("INITIAL", vec![Pattern::new("a".into(), 0), Pattern::new("(?i)b".into(), 1)], vec![])]
 }
 
-const INPUT: &str = "abaab bba";
+const INPUT: &str = "abÉ1b Bba";
+const INPUT2: &str = "1Éab";
 
 type Obs = Result<Vec<(usize, usize, usize)>, String>;
 
 fn scan(sc: &Scanner) -> Vec<(usize, usize, usize)> {
     sc.find_iter(INPUT).map(|m| (m.token_type(), m.start(), m.end())).collect()
+}
+
+fn scan2(sc: &Scanner) -> Vec<(usize, usize, usize)> {
+    sc.find_iter(INPUT2).map(|m| (m.token_type(), m.start(), m.end())).collect()
 }
 
 fn peek(sc: &Scanner) -> Vec<(usize, usize, usize)> {
@@ -69,6 +75,7 @@ fn run_op(op: Op, shared: &Scanner) -> Obs {
         Op::BuildAPrime => ScannerBuilder::new().add_scanner_modes(&modes_a_prime()).build().map(|s| scan(&s)).map_err(|_| "err".to_string()),
         Op::BuildBad => ScannerBuilder::new().add_scanner_modes(&modes_bad()).build().map(|s| scan(&s)).map_err(|_| "err".to_string()),
         Op::ScanShared => Ok(scan(shared)),
+        Op::ScanShared2 => Ok(scan2(shared)),
         Op::PeekShared => Ok(peek(shared)),
     }
 }
@@ -81,6 +88,7 @@ fn expected(op: Op) -> Obs {
         Op::BuildAPrime => unc(modes_a_prime()).map(|s| scan(&s)).map_err(|_| "err".to_string()),
         Op::BuildBad => unc(modes_bad()).map(|s| scan(&s)).map_err(|_| "err".to_string()),
         Op::ScanShared => Ok(scan(&unc(modes_a()).unwrap())),
+        Op::ScanShared2 => Ok(scan2(&unc(modes_a()).unwrap())),
         Op::PeekShared => Ok(peek(&unc(modes_a()).unwrap())),
     }
 }
@@ -93,11 +101,27 @@ struct HarnessResult {
 }
 
 /// Explores all schedules of one harness body: `scripts[t]` is run by thread t.
-fn explore(scripts: &[Vec<Op>], bound: Option<usize>, max_branches: usize) -> HarnessResult {
+fn explore(scripts: &[Vec<Op>], bound: Option<usize>, max_branches: usize, budget_s: f64) -> HarnessResult {
+    let started = std::time::Instant::now();
     let execs = Arc::new(AtomicUsize::new(0));
     let outcomes: Arc<Mutex<BTreeSet<String>>> = Arc::new(Mutex::new(BTreeSet::new()));
     let problem: Arc<Mutex<Option<String>>> = Arc::new(Mutex::new(None));
-    let want: Vec<Vec<Obs>> = scripts.iter().map(|s| s.iter().map(|o| expected(*o)).collect()).collect();
+    // The sequential expectation is computed inside a single-threaded loom model as well: code
+    // under test that touches a synchronisation primitive cannot run outside a model.
+    let want: Vec<Vec<Obs>> = {
+        let out: Arc<Mutex<Vec<Vec<Obs>>>> = Arc::new(Mutex::new(vec![]));
+        let (o, sc) = (out.clone(), scripts.to_vec());
+        let r = std::panic::catch_unwind(std::panic::AssertUnwindSafe(|| {
+            loom::model(move || {
+                *o.lock().unwrap() = sc.iter().map(|s| s.iter().map(|op| expected(*op)).collect()).collect();
+            })
+        }));
+        if r.is_err() {
+            return HarnessResult { executions: 1, outcomes: 1, violation: Some("the sequential (single-threaded) run of the operations panicked".into()), capped: false };
+        }
+        let v = out.lock().unwrap().clone();
+        v
+    };
     let want_keys: usize = {
         let mut k = BTreeSet::new();
         for s in scripts {
@@ -121,6 +145,7 @@ fn explore(scripts: &[Vec<Op>], bound: Option<usize>, max_branches: usize) -> Ha
     let mut b = loom::model::Builder::new();
     b.preemption_bound = bound;
     b.max_branches = max_branches;
+    b.max_duration = Some(std::time::Duration::from_secs_f64(budget_s));
     let r = std::panic::catch_unwind(std::panic::AssertUnwindSafe(|| {
         b.check(move || {
             e2.fetch_add(1, Ordering::Relaxed);
@@ -158,7 +183,7 @@ fn explore(scripts: &[Vec<Op>], bound: Option<usize>, max_branches: usize) -> Ha
         });
     }));
     let mut violation = problem.lock().unwrap().clone();
-    let mut capped = false;
+    let mut capped = started.elapsed().as_secs_f64() >= budget_s;
     if let Err(e) = r {
         let msg = if let Some(s) = e.downcast_ref::<&str>() { s.to_string() } else if let Some(s) = e.downcast_ref::<String>() { s.clone() } else { "panic".into() };
         if msg.contains("exceeded maximum number of branches") || msg.contains("Model exeeded maximum") {
@@ -206,7 +231,7 @@ fn main() {
     let mut viol = ViolAcc::default();
     let probe = sendsync_probe(&mut viol);
 
-    let ops = [Op::BuildA, Op::BuildAPrime, Op::BuildBad, Op::ScanShared, Op::PeekShared];
+    let ops = [Op::BuildA, Op::BuildAPrime, Op::BuildBad, Op::ScanShared, Op::ScanShared2, Op::PeekShared];
     let mut bodies: Vec<Vec<Vec<Op>>> = vec![];
     // two threads, one op each (all ordered pairs incl. equal ops)
     for a in ops {
@@ -241,14 +266,24 @@ fn main() {
             }
         }
     }
-    let bound = None;
+    let budget = if tier == Tier::Quick { 4.0 } else { 60.0 };
     let mut total_exec = 0usize;
     let mut total_outcomes = 0usize;
     let mut capped = 0usize;
+    let mut bounded = 0usize;
     let mut samples = Samples::new(6);
     let mut multi_outcome_bodies = 0usize;
+    let mut explored_bodies = 0usize;
     for body in &bodies {
-        let r = explore(body, bound, 100_000);
+        // all schedules (no preemption bound); a body whose schedule space does not close within
+        // the budget is explored again completely under preemption bound 2
+        let mut r = explore(body, None, 200_000, budget);
+        if r.capped && r.violation.is_none() {
+            let r2 = explore(body, Some(2), 200_000, budget * 2.0);
+            bounded += 1;
+            r = HarnessResult { executions: r.executions + r2.executions, outcomes: r.outcomes.max(r2.outcomes), violation: r2.violation, capped: r2.capped };
+        }
+        explored_bodies += 1;
         total_exec += r.executions;
         total_outcomes += r.outcomes;
         if r.outcomes > 1 {
@@ -258,16 +293,16 @@ fn main() {
             capped += 1;
         }
         if let Some(v) = r.violation {
-            viol.add("", || Violation { key: String::new(), summary: format!("threads {body:?}: {v}"), replay: json!({"threads": format!("{body:?}"), "shared_scanner": "built through the cache before the threads start", "input": INPUT, "problem": v, "how": "loom::model over scnr built with feature verif_loom; every thread runs its ops in order"}) });
+            viol.add("", || Violation { key: String::new(), summary: format!("threads {body:?}: {v}"), replay: json!({"threads": format!("{body:?}"), "shared_scanner": "built through the cache before the threads start", "inputs": [INPUT, INPUT2], "problem": v, "how": "loom::model over scnr built with feature verif_loom; every thread runs its ops in order"}) });
         }
         if samples.items.len() < 6 && r.executions > 50 {
             samples.push(|| json!({"threads": format!("{body:?}"), "executions": r.executions, "distinct_key_count_observations": r.outcomes}));
         }
-        if run.elapsed() > if tier == Tier::Quick { 240.0 } else { 1500.0 } {
-            capped += 1;
+        if run.elapsed() > if tier == Tier::Quick { 400.0 } else { 3000.0 } || viol.total() > 20 {
             break;
         }
     }
+    let unexplored = bodies.len() - explored_bodies;
     let n_dis = viol.total();
     viol.flush(&mut run);
     let mut cov = Map::new();
@@ -278,13 +313,15 @@ fn main() {
     cov.insert("evaluations".into(), json!(total_exec));
     cov.insert("distinct_nontrivial".into(), json!(total_outcomes));
     cov.insert("rule".into(), json!("one evaluation = one complete schedule (loom execution) of a harness body running the real build()/find_iter/peek_n code; loom's DPOR enumerates all schedules of a body (preemption bound: none); distinct_nontrivial = number of distinct vectors of cache sizes observed by the threads right after their operations, summed over bodies (more than one per body means the threads really raced on the cache)"));
-    cov.insert("exhaustive".into(), json!(capped == 0));
+    cov.insert("exhaustive".into(), json!(capped == 0 && unexplored == 0 && bounded == 0));
+    cov.insert("bodies_explored_under_preemption_bound_2_because_unbounded_did_not_close".into(), json!(bounded));
+    cov.insert("bodies_not_explored_because_of_the_wall_clock_cap".into(), json!(unexplored));
     cov.insert("harness_bodies".into(), json!(bodies.len()));
     cov.insert("bodies_with_more_than_one_observed_outcome".into(), json!(multi_outcome_bodies));
     cov.insert("bodies_capped".into(), json!(capped));
-    cov.insert("preemption_bound".into(), json!("none"));
+    cov.insert("preemption_bound".into(), json!("none (2 for the bodies counted above)"));
     cov.insert("send_sync_probe".into(), probe);
-    cov.insert("operations".into(), json!(["build(A)", "build(A) again", "build(A' = A with the lookahead polarity flipped)", "build(Bad = unsupported construct)", "scan with a shared Arc<Scanner> (built through the cache)", "find_iter + next + peek_n(3) + drain on the shared scanner"]));
+    cov.insert("operations".into(), json!(["build(A)", "build(A) again", "build(A' = A with the lookahead polarity flipped)", "build(Bad = unsupported construct)", "scan of input 1 with a shared Arc<Scanner> (built through the cache; patterns include Unicode classes)", "scan of input 2 with the shared scanner", "find_iter + next + peek_n(3) + drain on the shared scanner"]));
     cov.insert("disagreeing_bodies".into(), json!(n_dis));
     run.finish(
         "model_checking",
